@@ -196,6 +196,7 @@ class OptimizerMixin:
                 mfixed=[[int(i), float(v)] for i, v in minimizer_kwargs['fixed_vals']],
                 optimizer=self.name,
                 backend=tensorlib.name,
+                data=[float(v) for v in tensorlib.tolist(tensorlib.astensor(data))],
             )
         # handle non-pyhf ModelConfigs
         try:
